@@ -111,6 +111,23 @@ def model_cmd(c):
     return core.sshow(["c07", FORMULAS, [dm.frame_sexp(f) for f in c["frames"]], ops])
 
 
+def _public_view(d):
+    import json
+    v = [dm.observe_design(d)]
+    for part in (d.common, d.group):
+        if part is None:
+            v.append(None)
+            continue
+        sl = [[str(k), int(x.start), int(x.stop)] for k, x in part.slices.items()]
+        refused = False
+        try:
+            part["no such term in any design"]
+        except Exception:  # noqa
+            refused = True
+        v.append([sl, list(part.terms), refused])
+    return json.loads(json.dumps(v))
+
+
 def _execute(c, fresh_each=False):
     """runs the history; returns the outputs (same shapes as the model's) and side-effect reports"""
     import numpy as np
@@ -119,7 +136,7 @@ def _execute(c, fresh_each=False):
     dfs = [dm.to_pandas(f) for f in c["frames"]]
     copies = [d.copy(deep=True) for d in dfs]
     formulae.config["EVAL_UNSEEN_CATEGORIES"] = "error"
-    designs, outs, trained = [], [], []
+    designs, outs, trained, views = [], [], [], []
     problems = []
     from formulae.environment import Environment
     shared = Environment.capture(0) if c.get("shared_env") else 0
@@ -135,9 +152,11 @@ def _execute(c, fresh_each=False):
                     trained.append([None if p is None else np.array(p.design_matrix, copy=True)
                                     for p in (d.response, d.common, d.group)])
                     outs.append(["design", ["ok", dm.observe_design(d)]])
+                    views.append(_public_view(d))
                 except Exception as e:  # noqa
                     designs.append(e)
                     trained.append(None)
+                    views.append(None)
                     outs.append(["design", ["err", type(e).__name__]])
             elif o[0] in ("common", "group"):
                 if o[1] >= len(designs):
@@ -178,6 +197,12 @@ def _execute(c, fresh_each=False):
             for name, p, m in zip(("response", "common", "group"), (d.response, d.common, d.group), t):
                 if p is not None and not np.array_equal(np.asarray(p.design_matrix), m, equal_nan=True):
                     problems.append(f"the {name} training matrix of design #{i} changed after it was built")
+        # what a design answers through its public accessors (term names, slices, common[name], group[name],
+        # labels, levels) is the same at the end of the history as when it was built
+        for i, (d, v) in enumerate(zip(designs, views)):
+            if v is not None and _public_view(d) != v:
+                problems.append(f"what design #{i} returns through its accessors (slices / [name] / labels) "
+                                f"changed after it was built")
     finally:
         formulae.config["EVAL_UNSEEN_CATEGORIES"] = "error"
     return outs, problems
